@@ -10,13 +10,17 @@ THEOREMS = [
     "Sb.C16.setStart_after_segment", "Sb.C16.appendLine_rejects",
             "Sb.C16.scaleCoord_within_quantum", "Sb.C16.scaleCoord_quotient_small", "Sb.Proofs.floor_round_within_one", "Sb.Proofs.roundF32_intCast", "Sb.Proofs.roundF32_mono",
             "Sb.C16.appendLine_ok", "Sb.C16.appendLineAux_ok", "Sb.C16.scaleCoord_between", "Sb.C16.validC_mid", "Sb.C16.validPt_origin",
-            "Sb.Proofs.midpoint_between", "Sb.Proofs.repr_round", "Sb.Proofs.repr_two_mul"]
+            "Sb.Proofs.midpoint_between", "Sb.Proofs.repr_round", "Sb.Proofs.repr_two_mul",
+            "Sb.C16.finish_restarts", "Sb.C16.history_finish_restarts", "Sb.C16.applyCall_hdr"]
 ASSUMPTIONS = ["finite coordinates (NaN would make floorf(NaN) -> int16 conversion undefined; the property quantifies over finite ones)"]
 RULE = ("all call sequences up to length 4 (quick: 3) over a small alphabet {set-start ok/unrepresentable, append-line short/exactly "
         "60000/60001/120001/3.6e6 ms to representable and unrepresentable targets, hold 0/59999/60000/60001/180000 ms, finish} after "
         "init with scales {1,2,127}; init with scale 0/128/255; seeded random sequences of 200 calls; coordinates inside, exactly at "
         "and just beyond ±32767·scale, fractional coordinates, yaw incl. negative and >= 360; the builder's buffer is compared byte for "
-        "byte after every call (a rejected call must leave it unchanged) and the finished trajectory's bytes and total duration too. "
+        "byte after every call (a rejected call must leave it unchanged) and the finished trajectory's bytes and total duration too; "
+        "at every finish the handed-over bytes are read with the format specification and the property's own statement is evaluated "
+        "on them (total = sum of the requested durations, straight segments, within one quantum of the point of every call at its "
+        "cumulative time, also for the calls that follow an earlier finish). "
         "Non-trivial: a sequence containing a rejected call or a split segment.")
 
 
